@@ -52,8 +52,16 @@ def s_related(draw):
 
 
 def call(ctx, case, g, h):
+    # "dense or sparse", "all vertex labelings": container / sparsity format and the triangle each edge is stored in are a pure function of the
+    # generated seed (upper triangle, both, or - as after relabelling an upper-triangular matrix - either)
+    sd = int(case["seed"])
+    fg, fh = G.FORMATS[sd % len(G.FORMATS)], G.FORMATS[(sd // 13) % len(G.FORMATS)]
+    og, oh = [False, True, "permuted"][(sd // 169) % 3], [False, True, "permuted"][(sd // 507) % 3]
+    if max(g["n"], h["n"]) > 40:
+        fg = fh = "dense"          # cost bound only: the big-graph clauses keep the dense form
+    ctx.label("fmt:" + fg, "orient:%s" % og)
     np.random.seed(case["seed"])
-    out = ctx.call(gromov_hausdorff, G.adjacency(g), G.adjacency(h), **order_arg(case))
+    out = ctx.call(gromov_hausdorff, G.adjacency(g, fg, og), G.adjacency(h, fh, oh), **order_arg(case))
     ctx.require(isinstance(out, tuple) and len(out) == 2, "return_form", lambda: "returned %r" % (out,))
     lb, ub = float(out[0]), float(out[1])
     for name, v in (("lower", lb), ("upper", ub)):
